@@ -274,7 +274,10 @@ Definition round_at_stoch (x : rf) (p : option Z) (n : Z) (emin : option Z) (rm 
     let xr := fst xrf in
     let lost := snd (split xr n) in
     let rand_rm :=
-      if is_zero lost then RTZ
+      if is_zero lost then
+        (* the extended value has no digit below n: either x itself is
+           representable, or the pre-rounding moved onto a neighbour *)
+        match rf_compare (rf_abs xr) (rf_abs x) with Gt => RAZ | _ => RTZ end
       else
         let offset := rexp lost - (n_rand + 1) in
         let lost_c :=
